@@ -186,6 +186,11 @@ def reset_case(numpoly):
     """Reset numpoly's global state and the hooks between cases."""
     try:
         opt = sys.modules["numpoly.option"]
+        if _DEFAULTS and opt.GLOBAL_OPTIONS_DEFAULTS != _DEFAULTS:
+            # a case managed to change the shipped defaults (that is a C14 failure, reported there):
+            # restore them so that the following cases start from a sane state
+            opt.GLOBAL_OPTIONS_DEFAULTS.clear()
+            opt.GLOBAL_OPTIONS_DEFAULTS.update(_DEFAULTS)
         opt._NUMPOLY_OPTIONS.clear()
         opt._NUMPOLY_OPTIONS.update(_DEFAULTS or opt.GLOBAL_OPTIONS_DEFAULTS)
     except AttributeError:
